@@ -553,6 +553,13 @@ pub fn run(ctx: &Ctx) -> Outcome {
       if agg.antecedents.get(a).cloned().unwrap_or(0) == 0 { o.machinery_error = Some(format!("vacuity: antecedent counter {} is zero in this tier", a)); }
     }
   }
+  // the loop half (C06: the tablet-mode reset as the loop performs it, timers included; C19: what reaches the device)
+  if matches!(id, "C06" | "C19") {
+    let (vs, cov, mach) = crate::props_b::loop_half(ctx, id);
+    o.cov("loop_half", cov);
+    for v in vs { o.violations.push(v); }
+    if let Some(m) = mach { if o.machinery_error.is_none() { o.machinery_error = Some(format!("loop half: {}", m)); } }
+  }
   // for the unconditional properties every non-rest state is a non-trivial case
   if matches!(id, "C01" | "C19" | "C06") { o.cov("distinct_nontrivial", agg.states - agg.rest_states); }
   o
